@@ -26,6 +26,8 @@ double sqrt(double); float sqrtf(float);
 void* memcpy(void*, const void*, unsigned long);
 void* memmove(void*, const void*, unsigned long);
 void* memset(void*, int, unsigned long);
+void* malloc(unsigned long);
+void free(void*);
 
 static inline float vp_bits2f(u32 b) { union { u32 i; float f; } u; u.i = b; return u.f; }
 static inline double vp_bits2d(u64 b) { union { u64 i; double f; } u; u.i = b; return u.f; }
